@@ -40,7 +40,9 @@ RULES_DOC = {
           "R20 `impl IntoIterator<Item = X> + 'static` parameter narrowed to `Vec<X>`, one-element array arguments -> vec1; "
           "R21 `Vec::extend(Vec|Option)` / `Vec::from_iter(Option)` -> trusted helpers vec_extend / vec_extend_opt / vec_from_opt; "
           "R22 `extend_lpm(..).collect()` -> one trusted function Vec -> Vec; "
-          "R23 `impl AsView/AsViewMut` argument taken as the view type it converts to (`other.view()` dropped)",
+          "R23 `impl AsView/AsViewMut` argument taken as the view type it converts to (`other.view()` dropped); "
+          "R25 forwarding closure `|p, _| f(p)` over a captured FnMut (PrefixSet::retain) -> trusted adapter adapt_key_pred; "
+          "R27 `opt.as_mut().map(f)` with a user `FnOnce(&mut T)` (Entry::and_modify) -> trusted helper opt_modify (may write any value, nothing else)",
 }
 
 # ------------------------------------------------------------------------------------------
